@@ -96,6 +96,10 @@ def plan(seed, subbatch):
         b["common"]["timeframe"] = tf
         if cfg.random() < 0.6:
             (b if cfg.random() < 0.7 else a)["common"]["tf_as_enum"] = True
+        if cfg.random() < 0.4:
+            # a member-level fill flag: inside a Hexital the Hexital's own setting applies to the shared
+            # manager, whichever member was registered first
+            (a if cfg.random() < 0.5 else b)["common"]["timeframe_fill"] = True
         relation += "+shared_tf"
     members = [a, b]
     for extra in sample_members(cfg, cfg.choice((0, 0, 1, 2)), [None, tf] if tf else [None], max_period=8):
@@ -106,7 +110,7 @@ def plan(seed, subbatch):
     if subbatch == "calm":
         faults, burst = {}, None
     else:
-        faults, burst, _pe, _k = planlib.swarm_faults(cfg, base_s, tf_s, allowed=("drop", "dup", "burst"))
+        faults, burst, _pe, _k = planlib.swarm_faults(cfg, base_s, tf_s, allowed=("drop", "dup", "burst", "halt"), halt_buckets=(3, 12))
     op_rng = sub_rng(seed, "operator")
     n_ops = op_rng.choice((0, op_rng.randint(1, 3), op_rng.randint(2, 12)))
     extras = []
